@@ -8,7 +8,13 @@ ID = "C04"
 RULE = ("random light-weight edge lists: N<=8 vertices incl. joint degree zero, <=12 rows with self-loops, repeated and "
         "reversed pairs, occasionally vertices >= N or short name/id columns (malformed stream), plus lists produced by "
         "the real fast generator under scripted shuffles; a quarter of the cases are HISTORIES (convert, caller damages the "
-        "returned network and grows the edge-list object in place, convert the same object again); observed: node set with annotations, edge set with both "
+        "returned network and grows the edge-list object in place, convert the same object again); another quarter (and "
+        "the first 40 cases) are ALIAS histories (a result must not alias its input, both directions): after edge list -> "
+        "network the caller changes its edge list in place (rows / names / ids / jds entries appended, removed, replaced, "
+        "reversed, cleared) and the network is observed again; after network -> edge list the network is changed in place "
+        "(Network.remove_edge / add_edge, G.remove_edge / add_edge, annotations re-assigned, vertices removed / added, "
+        "graph cleared or replaced through the G setter) and the edge list returned BEFORE is observed again and converted "
+        "to a network once more; every re-observed result is judged by c04_check against the original list; observed: node set with annotations, edge set with both "
         "attributes, reverse conversion or its exception class, input object unchanged; non-trivial = list with >=2 rows "
         "and at least one vertex of degree zero or a repeated/reversed pair; distinct by full input")
 EXHAUSTIVE = {"quick": False, "thorough": False}
@@ -52,6 +58,16 @@ def corpus():
         {"jds": [[1], [1], [1]], "edges": [[1, 2], [2, 1], [1, 2]], "names": [0, 1, 2], "ids": [0, 1, 2]},
         {"jds": [[0, 0], [0, 0]], "edges": [], "names": [], "ids": []},
         {"jds": [[2], [2]], "edges": [[1, 1], [0, 0]], "names": [1, 1], "ids": [0, 1]},
+        # a result must not alias its input: the network loses its first and last edge after it was converted to an
+        # edge list (a rewiring step), the caller's edge list gets another row / another annotation after it was
+        # converted to a network; both results are observed again and the edge list is converted once more
+        {"jds": [[2, 1], [1, 1], [1, 1], [0, 0], [2, 0]], "edges": [[0, 1], [1, 2], [2, 0], [0, 4], [4, 2]],
+         "names": [1, 1, 1, 0, 0], "ids": [0, 0, 0, 1, 2],
+         "alias": {"el_ops": [["append_row", 0, 3, 4, 2, 31, [5, 5]], ["replace_name", 1, 0, 0, 3, 32, [5, 5]]],
+                   "net_ops": [["net_remove_edge", 0, 0, 0, 0, 40, [4, 4]], ["g_remove_edge", 3, 0, 0, 0, 40, [4, 4]]]}},
+        {"jds": [[1], [1], [2], [0]], "edges": [[0, 2], [2, 1]], "names": [0, 1], "ids": [3, 4],
+         "alias": {"el_ops": [["replace_jd", 0, 3, 0, 0, 30, [7]], ["pop_row", 1, 0, 0, 0, 30, [7]]],
+                   "net_ops": [["g_add_edge", 0, 0, 3, 2, 41, [4]], ["set_topology", 0, 0, 0, 4, 41, [4]]]}},
     ]
 
 
@@ -138,6 +154,34 @@ def _with_second(rng, c):
     return c
 
 
+_EL_OPS = ["append_row", "pop_row", "replace_pair", "replace_name", "replace_id", "replace_jd", "append_jd",
+           "reverse_rows", "clear_rows", "pop_jd"]
+_NET_OPS = ["net_remove_edge", "g_remove_edge", "g_add_edge", "net_add_edge", "set_topology", "set_motif_id", "set_jd",
+            "remove_node", "add_node", "clear", "replace_graph"]
+
+
+def _with_alias(rng, c):
+    """history 'a result must not alias its input': after each conversion the caller changes the INPUT object in place
+    (edge list: rows / annotations / jds entries appended, removed, replaced; network: edges removed or added through
+    Network.remove_edge / G.remove_edge / G.add_edge / Network.add_edge, annotations re-assigned, vertices removed or
+    added, the graph cleared or replaced through the G setter) and the PREVIOUSLY RETURNED result is observed again -
+    and the previously returned edge list is fed to the next conversion.  Operands are positions / vertices resolved
+    against what exists at that moment (index modulo the current number of rows / edges)."""
+    N = len(c["jds"])
+    T = len(c["jds"][0]) if c["jds"] else 1
+    el_ops = []
+    for _ in range(rng.randint(1, 3)):
+        el_ops.append([rng.choice(_EL_OPS), rng.randint(0, 40), rng.randint(0, max(0, N - 1)), rng.randint(0, max(0, N - 1)),
+                       rng.randint(0, 5), rng.randint(30, 39), [rng.randint(4, 9) for _ in range(T)]])
+    net_ops = []
+    for _ in range(rng.randint(1, 3)):
+        net_ops.append([rng.choice(_NET_OPS if rng.random() < 0.5 else _NET_OPS[:4]), rng.randint(0, 40),
+                        rng.randint(0, max(0, N - 1)), rng.randint(0, N + 1), rng.randint(0, 5), rng.randint(40, 49),
+                        [rng.randint(4, 9) for _ in range(T)]])
+    c["alias"] = {"el_ops": el_ops, "net_ops": net_ops}
+    return c
+
+
 def generate(rng, tier):
     n = 500 if tier == "quick" else 6000
     for i in range(n):
@@ -152,6 +196,8 @@ def generate(rng, tier):
             c = _rand_case(rng, True)
         if i % 4 == 1 and len(c["names"]) == len(c["edges"]) == len(c["ids"]):
             c = _with_second(rng, c)
+        elif i % 4 == 3 or i < 40:
+            c = _with_alias(rng, c)
         yield c
 
 
@@ -177,7 +223,18 @@ def _mk_edgelist(case):
     return el
 
 
-def _observe(el, net):
+def _cols(back):
+    """the four columns of an edge-list object in canonical form (type codes as in _observe)"""
+    cols = [[list(j) for j in back.joint_degrees], [list(e) for e in back.edge_list],
+            [_code(t, 4001) for t in back.topologies],
+            [i if (isinstance(i, int) and not isinstance(i, bool) and 0 <= i < 4000) else 4002 for i in back.motif_id]]
+    n = min(len(cols[1]), len(cols[2]), len(cols[3]))
+    rows = sorted([[min(e), max(e)], nm, i] for e, nm, i in zip(cols[1][:n], cols[2][:n], cols[3][:n]))
+    return {"ok": [cols[0], rows], "cols": cols, "parallel": len(cols[1]) == len(cols[2]) == len(cols[3])}
+
+
+def _observe(el, net, keep=None):
+    """keep: a dict that receives the edge-list OBJECT returned by the reverse conversion (for the alias histories)"""
     from gcmpy.network.network_to_edge_list import NetworkToEdgeList
     from gcmpy.names.network_names import NetworkNames
     G = net.G
@@ -204,15 +261,146 @@ def _observe(el, net):
     edges.sort()
     try:
         back = NetworkToEdgeList.convert(net)
-        cols = [[list(j) for j in back.joint_degrees], [list(e) for e in back.edge_list],
-                [_code(t, 4001) for t in back.topologies],
-                [i if (isinstance(i, int) and not isinstance(i, bool) and 0 <= i < 4000) else 4002 for i in back.motif_id]]
-        rows = sorted([[min(e), max(e)], n, i] for e, n, i in zip(cols[1], cols[2], cols[3]))
-        backobs = {"ok": [cols[0], rows], "cols": cols,
-                   "parallel": len(cols[1]) == len(cols[2]) == len(cols[3])}
+        backobs = _cols(back)
+        if keep is not None:
+            keep["back"] = back
     except Exception as e:  # noqa: BLE001
         backobs = {"exc": type(e).__name__}
     return {"net": [nodes, edges], "back": backobs, "bad_types": bad_types[:3]}
+
+
+def _apply_el_ops(el, ops):
+    """the caller goes on using ITS edge-list object: rows / annotations / jds entries change in place"""
+    for op, i, a, b, nm, mid, jd in ops:
+        n = min(len(el.edge_list), len(el.topologies), len(el.motif_id))
+        if op == "append_row":
+            el.edge_list.append(tuple([a, b]))
+            el.topologies.append(_nm(nm))
+            el.motif_id.append(mid)
+        elif op == "pop_row" and n:
+            k = i % n
+            del el.edge_list[k], el.topologies[k], el.motif_id[k]
+        elif op == "replace_pair" and n:
+            el.edge_list[i % n] = tuple([a, b])
+        elif op == "replace_name" and n:
+            el.topologies[i % n] = _nm(nm + 6)
+        elif op == "replace_id" and n:
+            el.motif_id[i % n] = mid
+        elif op == "replace_jd" and el.joint_degrees:
+            el.joint_degrees[a % len(el.joint_degrees)] = tuple(jd)
+        elif op == "append_jd":
+            el.joint_degrees.append(tuple(jd))
+        elif op == "pop_jd" and el.joint_degrees:
+            el.joint_degrees.pop()
+        elif op == "reverse_rows":
+            el.edge_list.reverse()
+            el.topologies.reverse()
+            el.motif_id.reverse()
+        elif op == "clear_rows":
+            del el.edge_list[:], el.topologies[:], el.motif_id[:]
+
+
+def _apply_net_ops(net, ops):
+    """the network goes on living: edges removed / added (Network methods and the networkx graph itself), annotations
+    re-assigned, vertices removed / added, graph cleared or replaced through the G setter"""
+    import networkx as nx
+    from gcmpy.names.network_names import NetworkNames
+    for op, i, a, b, nm, mid, jd in ops:
+        G = net.G
+        es = list(G.edges())
+        vs = list(G.nodes())
+        if op == "net_remove_edge" and es:
+            net.remove_edge(*es[i % len(es)])
+        elif op == "g_remove_edge" and es:
+            u, v = es[i % len(es)]
+            G.remove_edge(v, u)
+        elif op == "g_add_edge":
+            G.add_edge(a, b)
+            G.edges[a, b][NetworkNames.TOPOLOGY] = _nm(nm + 6)
+            G.edges[a, b][NetworkNames.MOTIF_IDS] = mid
+        elif op == "net_add_edge":
+            net.add_edge(tuple([b, a]))
+            G.edges[b, a][NetworkNames.TOPOLOGY] = _nm(nm + 6)
+            G.edges[b, a][NetworkNames.MOTIF_IDS] = mid
+        elif op == "set_topology" and es:
+            G.edges[es[i % len(es)]][NetworkNames.TOPOLOGY] = _nm(nm + 6)
+        elif op == "set_motif_id" and es:
+            G.edges[es[i % len(es)]][NetworkNames.MOTIF_IDS] = mid
+        elif op == "set_jd" and vs:
+            G.nodes[vs[a % len(vs)]][NetworkNames.JOINT_DEGREE] = tuple(jd)
+        elif op == "remove_node" and vs:
+            G.remove_node(vs[a % len(vs)])
+        elif op == "add_node":
+            G.add_node(len(vs) + 3)
+            G.nodes[len(vs) + 3][NetworkNames.JOINT_DEGREE] = tuple(jd)
+        elif op == "clear":
+            G.clear()
+        elif op == "replace_graph":
+            net.G = nx.Graph()
+
+
+def _alias_history(case, el, net, keep, out):
+    """'a result must not alias its input' (both directions) - see _with_alias"""
+    from gcmpy.network.edge_list_to_network import EdgeListToNetwork
+    al = case["alias"]
+    res = {}
+    # edge list -> network: the caller changes its edge list afterwards; the network it got must stay what it was
+    _apply_el_ops(el, al["el_ops"])
+    res["net_after_input_changed"] = _observe(el, net)
+    # ... and converting the SAME edge-list object again gives the network of its CURRENT contents (same length or not)
+    res["el_now"] = _cols(el)["cols"]
+    with oracles.forbid_random():
+        net4 = EdgeListToNetwork.convert(el)
+    res["el_again"] = _observe(el, net4)
+    back = keep.get("back")
+    if back is not None:
+        # network -> edge list: the network changes afterwards; the edge list returned BEFORE must stay what it was ...
+        _apply_net_ops(net, al["net_ops"])
+        try:
+            res["back_after_input_changed"] = _cols(back)
+        except Exception as e:  # noqa: BLE001
+            res["back_after_input_changed"] = {"exc": type(e).__name__}
+        # ... and converting it gives the graph that was converted
+        try:
+            with oracles.forbid_random():
+                net3 = EdgeListToNetwork.convert(back)
+            res["net_of_back"] = _observe(back, net3)
+        except Exception as e:  # noqa: BLE001
+            res["net_of_back"] = {"exc": type(e).__name__}
+        # ... and the reverse conversion called AGAIN on the same, changed Network object describes what it holds NOW
+        res["reconverted"] = _observe(None, net)
+    out["alias"] = res
+
+
+def _case_of_net(netobs):
+    """the edge list a network observation describes (None unless vertices 0..n-1 all annotated, all edges attributed)"""
+    nodes, edges = netobs
+    if [v for v, _ in nodes] != list(range(len(nodes))) or any(not a for _, a in nodes):
+        return None
+    if any(len(a) != 2 or a[0] < 0 or a[1] < 0 for _, a in edges):
+        return None
+    return {"jds": [a[0] for _, a in nodes], "edges": [e for e, _ in edges], "names": [a[0] for _, a in edges],
+            "ids": [a[1] for _, a in edges]}
+
+
+def _el_now(al):
+    c = al["el_now"]
+    return {"jds": c[0], "edges": c[1], "names": c[2], "ids": c[3]}
+
+
+def _alias_model_cases(case, impl_obs):
+    """[(key, edge list to run the model on)] for the later conversions of an alias history"""
+    out = []
+    if "alias" not in case or is_exc(impl_obs):
+        return out
+    al = impl_obs.get("alias", {})
+    if "el_again" in al:
+        out.append(("el_again", _el_now(al)))
+    if "net_of_back" in al:
+        out.append(("net_of_back", _snapshot_case(impl_obs)))
+    if "reconverted" in al and _case_of_net(al["reconverted"]["net"]) is not None:
+        out.append(("reconverted", _case_of_net(al["reconverted"]["net"])))
+    return out
 
 
 def impl(case):
@@ -221,8 +409,11 @@ def impl(case):
     before = copy.deepcopy((el.joint_degrees, el.edge_list, el.topologies, el.motif_id))
     with oracles.forbid_random():
         net = EdgeListToNetwork.convert(el)
-    out = _observe(el, net)
+    keep = {}
+    out = _observe(el, net, keep)
     out["input_unchanged"] = before == (el.joint_degrees, el.edge_list, el.topologies, el.motif_id)
+    if "alias" in case:
+        _alias_history(case, el, net, keep, out)
     if "second" in case:
         sec = case["second"]
         if sec["damage_first_result"] and net.G.number_of_edges() > 0:
@@ -246,10 +437,19 @@ def _t(c):
     return [c["jds"], c["edges"], c["names"], c["ids"]]
 
 
+def _snapshot_case(impl_obs):
+    """the edge list the reverse conversion returned at first (observed BEFORE anything was changed), as a case"""
+    if is_exc(impl_obs) or "cols" not in impl_obs.get("back", {}):
+        return None
+    c = impl_obs["back"]["cols"]
+    return {"jds": c[0], "edges": c[1], "names": c[2], "ids": c[3]}
+
+
 def model_calls(case, impl_obs):
     calls = [("c04_run", _t(case))]
     if "second" in case:
         calls.append(("c04_run", _t(_second_case(case))))
+    calls += [("c04_run", _t(c)) for _, c in _alias_model_cases(case, impl_obs)]
     return calls
 
 
@@ -269,6 +469,8 @@ def model_obs(case, raws):
     m = _mobs(raws[0])
     if "second" in case:
         m["second"] = _mobs(raws[1])
+    else:
+        m["later"] = [_mobs(r) for r in raws[1:]]
     return m
 
 
@@ -284,6 +486,24 @@ def compare(case, impl_obs, model):
         d = _cmp1(impl_obs["second"], model["second"])
         if d:
             return "second conversion of the same (grown) edge-list object: " + d
+    if "alias" in case:
+        al = impl_obs["alias"]
+        d = _cmp1(al["net_after_input_changed"], model)
+        if d:
+            return "network observed again after the caller changed its edge list in place: " + d
+        if "back_after_input_changed" in al:
+            b = al["back_after_input_changed"]
+            if b.get("ok") != model["back"].get("ok") or not b.get("parallel"):
+                return ("edge list returned by the reverse conversion, observed again after the network was changed in "
+                        f"place: {b} model {model['back']}")
+        if "exc" in al.get("net_of_back", {}):
+            return f"converting the previously returned edge list raised {al['net_of_back']['exc']}"
+        for (key, _), m in zip(_alias_model_cases(case, impl_obs), model["later"]):
+            d = _cmp1(al[key], m)
+            if d:
+                return {"el_again": "conversion of the same edge-list object after it was changed in place: ",
+                        "net_of_back": "network of the previously returned edge list (after the first network was changed): ",
+                        "reconverted": "reverse conversion called again on the same Network object after it was changed: "}[key] + d
     return None
 
 
@@ -309,12 +529,42 @@ def _chk1(c, obs):
     return ("c04_check", [_t(c), [nodes, edges_t], b])
 
 
+def _alias_checks(case, impl_obs):
+    """[(what, observation judged against the ORIGINAL edge list)] of an alias history: every re-observed result and
+    the network of the previously returned edge list are judged by the same verified checker c04_check"""
+    al = impl_obs["alias"]
+    out = [("network observed again after the caller changed its edge list in place (rows / annotations / jds "
+            "appended, removed, replaced): ", al["net_after_input_changed"])]
+    if "back_after_input_changed" in al:
+        o = dict(impl_obs)
+        o["back"] = al["back_after_input_changed"]
+        out.append(("edge list returned by NetworkToEdgeList.convert, observed again after the network was changed in "
+                    "place (edges removed / added, annotations re-assigned): ", o))
+    if "net_of_back" in al and "exc" not in al["net_of_back"]:
+        out.append(("EdgeListToNetwork.convert of the edge list returned earlier, after the first network was changed "
+                    "in place: ", al["net_of_back"]))
+    return out
+
+
+def _reconverted_check(impl_obs):
+    """the changed network, converted again, judged against the edge list that network describes NOW"""
+    al = impl_obs["alias"]
+    c = _case_of_net(al["reconverted"]["net"]) if "reconverted" in al else None
+    return None if c is None else (c, al["reconverted"])
+
+
 def check_calls(case, impl_obs):
     if is_exc(impl_obs):
         return []
     calls = [_chk1(case, impl_obs)]
     if "second" in case:
         calls.append(_chk1(_second_case(case), impl_obs["second"]))
+    if "alias" in case:
+        calls += [_chk1(case, o) for _, o in _alias_checks(case, impl_obs)]
+        calls.append(_chk1(_el_now(impl_obs["alias"]), impl_obs["alias"]["el_again"]))
+        rc = _reconverted_check(impl_obs)
+        if rc:
+            calls.append(_chk1(*rc))
     return calls
 
 
@@ -343,6 +593,37 @@ def check_verdict(case, impl_obs, raws):
         return "input edge list was modified by the conversion"
     if "second" in case:
         return _verdict1(impl_obs["second"], raws[1], "second conversion of the same edge-list object after it grew: ")
+    if "alias" in case:
+        al = impl_obs["alias"]
+        for (what, o), raw in zip(_alias_checks(case, impl_obs), raws[1:]):
+            v = _verdict1(o, raw, what)
+            if v:
+                return v
+        n_al = len(_alias_checks(case, impl_obs))
+        v = _verdict1(al["el_again"], raws[1 + n_al], "EdgeListToNetwork.convert of the SAME edge-list object after the caller "
+                      "changed it in place (rows / annotations / jds replaced, removed, appended), judged against its "
+                      "current contents: ")
+        if v:
+            return v
+        if _reconverted_check(impl_obs):
+            v = _verdict1(al["reconverted"], raws[-1], "NetworkToEdgeList.convert called again on the same Network object after "
+                          "it was changed in place (edges removed / added, annotations re-assigned), judged against what the "
+                          "network holds now: ")
+            if v:
+                return v
+        # a result is a value: it is still what it was when it was returned
+        a = al["net_after_input_changed"]
+        if a["net"] != impl_obs["net"] or a["back"].get("ok") != impl_obs["back"].get("ok"):
+            return ("the network returned by EdgeListToNetwork.convert changed when the caller changed its edge list "
+                    f"afterwards: was {impl_obs['net']}, now {a['net']}")
+        b = al.get("back_after_input_changed")
+        if b is not None and (b.get("ok") != impl_obs["back"].get("ok") or b.get("parallel") != impl_obs["back"].get("parallel")):
+            return ("the edge list returned by NetworkToEdgeList.convert changed when the network was changed afterwards "
+                    f"(edges removed / added, annotations re-assigned): was {impl_obs['back'].get('ok')}, now {b.get('ok', b)}"
+                    f"{'' if b.get('parallel', True) else ' with columns of different lengths'}")
+        wf = all(0 <= v < len(case["jds"]) for e in case["edges"] for v in e)
+        if wf and "exc" in al.get("net_of_back", {}):
+            return f"EdgeListToNetwork.convert of the edge list returned earlier raised {al['net_of_back']['exc']}"
     return None
 
 
@@ -368,6 +649,17 @@ def shrink(case):
         c = dict(case)
         del c["second"]
         yield c
+    if "alias" in case:
+        al = case["alias"]
+        for f in ("el_ops", "net_ops"):
+            for i in range(len(al[f])):
+                c = dict(case)
+                c["alias"] = dict(al)
+                c["alias"][f] = al[f][:i] + al[f][i + 1:]
+                yield c
+        c = dict(case)
+        del c["alias"]
+        yield c
     N = len(case["jds"])
     if N > 1 and all(v < N - 1 for e in case["edges"] for v in e):
         c = dict(case)
@@ -382,8 +674,10 @@ def describe(case, impl_obs):
 
 def histogram(cases):
     h = {"cases": len(cases), "with_selfloop": 0, "with_repeated_pair": 0, "with_zero_degree_vertex": 0,
-         "with_vertex_out_of_range": 0, "short_columns": 0, "rows_total": 0}
+         "with_vertex_out_of_range": 0, "short_columns": 0, "rows_total": 0, "grow_histories": 0, "alias_histories": 0}
     for c in cases:
+        h["grow_histories"] += "second" in c
+        h["alias_histories"] += "alias" in c
         keys = [(min(e), max(e)) for e in c["edges"]]
         h["rows_total"] += len(keys)
         h["with_selfloop"] += any(a == b for a, b in keys)
